@@ -599,3 +599,13 @@ Definition get_data (d : rdesc) (st : store) : list byte + err :=
        | Some bs => inl bs
        | None => inr EShortData
        end.
+
+(* Descriptor.GetReader: an io.SectionReader over [Offset, Offset+Size); reading
+   it to the end yields what is actually there (no error when the file is
+   shorter); a negative offset makes the underlying ReadAt fail *)
+Definition section_bytes (d : rdesc) (st : store) : list byte + err :=
+  if d_size d <=? 0 then inl []
+  else if d_off d <? 0 then inr ENegOffset
+  else if Z.of_nat (length st) <=? d_off d then inl []
+  else inl (nread (Z.to_nat (d_off d))
+                  (Z.to_nat (Z.min (d_size d) (Z.of_nat (length st) - d_off d))) st).
